@@ -32,6 +32,11 @@ CHECKS = {
                   'CrossHair confirms over all paths that entry i is the signature of file i, that failures propagate, and that executor lifetimes are respected.',
              note='Trusted: CrossHair path exhaustion; the executor/as_completed contract stubs.  Real pools and pickling are outside.',
              ref='3/C13'),
+ 'C04': dict(engine='X', technique='CrossHair/z3-driven exhaustive case split over signature-ID arrangements, identifier attributes and directory contents on the real ReferenceDatabase / genomes_by_id / locate_files / query code (in-memory SQLite, tagging distance stub)',
+             text='For every arrangement of signature IDs within the bound (any order, unrelated extras, missing genomes), every identifier attribute (incl. None / invalid) and every directory '
+                  'content subset, loading pairs each genome with the signature carrying its ID and routes that signature\'s distance column to it, or fails exactly in the stated situations.',
+             note='Trusted: CrossHair path exhaustion; the signature-file stand-in (ids + metadata) and the tagging stubs.  HDF5 / SQLite file formats are outside.',
+             ref='3/C04'),
  'C05': dict(engine='KX', technique='SMT over symbolic read/write sets of the prange iterations of the translated _jaccarddist_parallel (Bernstein conditions) + cell identity against the pairwise kernel with FP operators as uninterpreted functions; CrossHair-driven exhaustive case split of the Python layers with tagged stubs',
              text='K: for every array content and bounds array within the size bound, distinct iterations of the OpenMP loop touch disjoint shared locations (so every schedule gives the '
                   'sequential result), every read is in bounds, and out[i] is the pairwise kernel applied to segment i.  X: for every size, chunk size, index selection (repeats), container kind '
